@@ -21,7 +21,7 @@ EXT = {"json": "json", "yaml": "yaml", "toml": "toml", "env": "env", "flags": "t
 FAULT_KINDS = ["eisdir", "enospc", "efbig", "nonutf8_source", "dangling_source"]
 PROBES = ["dual_built_before_importer", "dual_built_after_importer", "shared_lib_two_entries", "failing_first", "failing_middle",
           "failing_last", "same_basename_pair", "second_run_over_artifacts", "listed_twice", "dir_walk_order_differs_from_sorted",
-          "respelled_argument", "failing_lib_imported", "directory_and_files_mixed"]
+          "respelled_argument", "failing_lib_imported", "directory_and_files_mixed", "symlinked_template_pair"]
 TIERS = {
     "quick": {"runs": 230, "wall_cap": 210},
     "thorough": {"runs": 5000, "wall_cap": 3300, "reexecute": 60},
@@ -82,6 +82,20 @@ def generate(rng, tier, idx):
             files[0]["role"], files[0]["out"] = "entry", "json"
         if files[b]["imports"]:
             files[b]["imports"] = [imp for imp in files[b]["imports"] if imp["target"] != a]
+    if len(dirs) >= 2 and rng.chance(12):
+        # a shared template: the same entry file present in two directories, the second being a symbolic link to the first; each directory
+        # has its own ./vals.ucg, so the two builds must differ although the template's bytes (and inode) are the same
+        d1, d2 = rng.sample(dirs, 2)
+        base = len(files)
+        conv = rng.choice(["json", "yaml"])
+        for d, shape in ((d1, "int"), (d2, "str")):
+            files.append({"path": (d + "/" if d else "") + "vals.ucg", "role": "lib", "uid": "v%s%s" % (shape, rng.token(5)), "shape": shape,
+                          "out": None, "imports": [], "std": False, "fail": None})
+        files.append({"path": (d1 + "/" if d1 else "") + "tpl.ucg", "role": "entry", "uid": "tpl" + rng.token(5), "shape": "int", "out": conv,
+                      "imports": [{"target": base, "spelling": "dot"}], "std": False, "fail": None, "untyped_use": True})
+        files.append({"path": (d2 + "/" if d2 else "") + "tpl.ucg", "role": "entry", "uid": files[-1]["uid"], "shape": "int", "out": conv,
+                      "imports": [{"target": base + 1, "spelling": "dot"}], "std": False, "fail": None, "untyped_use": True, "symlink_to": base + 2})
+        n = len(files)
     world = {"files": files, "strict": not rng.chance(12), "fault": None, "fsize": None, "creation": rng.shuffle(list(range(n)))}
     if rng.chance(25):
         outs = [i for i, f in enumerate(files) if f["out"]]
@@ -158,7 +172,10 @@ def render_file(world, i, root_abs):
         t = files[imp["target"]]
         L.append('let i%d = import "%s";' % (k, spelled(world, f, t, imp["spelling"], root_abs)))
         deps.append("[i%d.id] + i%d.deps" % (k, k))
-        calc.append(("i%d.n + 1" % k) if t["shape"] == "int" else ('i%d.n + "s"' % k))
+        if f.get("untyped_use"):
+            calc.append("i%d.n" % k)
+        else:
+            calc.append(("i%d.n + 1" % k) if t["shape"] == "int" else ('i%d.n + "s"' % k))
         calc.append('i%d.f("p%d-")' % (k, k))
     L.append("let deps = " + (" + ".join(deps) if deps else "[]") + ";")
     L.append("let calc = [" + ", ".join(calc) + "];")
@@ -278,6 +295,10 @@ class Copy:
         for i in world["creation"]:
             f = files[i]
             fault = world["fault"]
+            if f.get("symlink_to") is not None:
+                tgt = files[f["symlink_to"]]["path"]
+                sb.symlink(self.proj + "/" + f["path"], os.path.relpath(tgt, os.path.dirname(f["path"]) or "."))
+                continue
             if fault and fault["file"] == i and fault["kind"] == "nonutf8_source":
                 sb.write(self.proj + "/" + f["path"], b"let id = \"\xff\xfe\";\n")
             elif fault and fault["file"] == i and fault["kind"] == "dangling_source":
@@ -394,6 +415,8 @@ def execute(world, sb, res):
         res.probe("same_basename_pair")
     if any(files[t]["role"] == "failing" for t in importers):
         res.probe("failing_lib_imported")
+    if any(f.get("symlink_to") is not None for f in files):
+        res.probe("symlinked_template_pair")
 
     def closure(i, seen=None):
         seen = seen if seen is not None else set()
@@ -579,7 +602,18 @@ def shrink_candidates(world):
             for i, f in enumerate(files):
                 if i == d:
                     continue
-                nf.append(dict(f, imports=[dict(imp, target=ri(imp["target"])) for imp in f["imports"] if imp["target"] != d]))
+                g = dict(f, imports=[dict(imp, target=ri(imp["target"])) for imp in f["imports"] if imp["target"] != d])
+                if g.get("symlink_to") is not None:
+                    if g["symlink_to"] == d:
+                        g = None
+                    else:
+                        g["symlink_to"] = ri(g["symlink_to"])
+                if g is None:
+                    nf = None
+                    break
+                nf.append(g)
+            if nf is None:
+                continue
             ns = []
             for sc in w["schedules"]:
                 if sc["mode"] == "files":
